@@ -1,10 +1,20 @@
 """C03 - block raw texts tile the source; line numbers are true."""
 import gens_split as G
 import splitcommon as SC
+from props import c03_selfref as SELF
 
 ENGINE = "split"
 RULE = ("streams: T = all token sequences over the 14-token splitter alphabet up to length 4 (quick) / 5 (thorough) plus random "
-        "longer ones; G = grammar derivations; M = mutations of G; U = arbitrary code points; S = size-scaled families. "
+        "longer ones; G = grammar derivations; M = mutations of G; U = arbitrary code points; S = size-scaled families; "
+        "the library's own artefacts as input (props/c03_selfref.py): W = one target block of every kind (valid, aborting in the "
+        "splitter, duplicate key, duplicate field) with the writer's warning comment for its own line count and the near misses "
+        "(other counts, digit systems, case, blanks, doubled, bare template; default and custom templates) above / a blank line "
+        "above / on the same line / after a remark / below / far from it; W-ctx = that text inside comments, values, macros, "
+        "preambles, the target itself, the raw of a failed block; W-self = default separator / indent / VAL_SEP / reserved words "
+        "as text; W-doc = documents of several such blocks; L = libraries built by constructor holding such text, written and "
+        "read back; R = (parse -> write) x 2..4 + final parse under default and custom formats, empty and default stacks, "
+        "EVERY parse judged by the oracle on the text it was given (with the empty and with the default parse stack), the model "
+        "compared on the last text parsed. "
         "distinct = distinct input text; non-trivial = the parse yields at least two blocks or a failed block")
 TRUSTED = ["oracle instance: str.lower restricted to ASCII for the @type text (other inputs skipped for the model comparison, "
            "still checked by the Python oracle)"]
@@ -40,10 +50,32 @@ def generate(rng, tier):
         cases.append({"stream": "E", "input": {"text": G.edge_wrap(rng, t)}})
     for name, text in G.scaled(tier):
         cases.append({"stream": "S", "input": {"text": text, "name": name}})
+    # the library's own artefacts as input: appended after the older streams, which keep their inputs
+    cases += SELF.generate(rng, tier)
     return cases
 
 
+def _judge(text, lib, items=None):
+    """the property statement on the blocks of one parse of `text` -> (ok, detail)"""
+    ok, detail, offs = SC.tiles(text, lib.blocks)
+    if ok:
+        ok, detail = SC.true_lines(text, lib.blocks, offs)
+    if ok:
+        for b in lib.blocks:
+            e = b if type(b).__name__ == "Entry" else getattr(b, "ignore_error_block", None)
+            if e is not None and type(e).__name__ == "Entry":
+                lo, hi = e.start_line, e.start_line + e.raw.count("\n")
+                for f in e.fields:
+                    if not (isinstance(f.start_line, int) and lo <= f.start_line <= hi):
+                        ok, detail = False, "field %r line %r outside its entry's lines %d..%d" % (f.key, f.start_line, lo, hi)
+    return ok, detail
+
+
 def impl(case):
+    if "cycles" in case["input"]:
+        return SELF.impl_cycles(case, _judge)
+    if "segs" in case["input"]:
+        return SELF.impl_segs(case, _judge)
     text = case["input"]["text"]
     rec, r = SC.base_record(text)
     # lexer correspondence rides along on small inputs (op 130 has its own cases in C01)
@@ -82,4 +114,6 @@ def impl(case):
 
 
 def shrink(case):
+    if "text" not in case["input"] or "cycles" in case["input"]:
+        return SELF.shrink(case)
     return SC.shrink_text(case)
